@@ -21,6 +21,7 @@ def run(ctx):
     shared.publish_before_ack(ctx, '1')
     shared.handover_order(ctx, '2')
     shared.owner_id_removal(ctx, '3')
+    shared.overlay_entries_replaced_whole(ctx, '3w', MAPS=shared.COMMIT_OVERLAY_MAPS, what='commit', key=' commit-overlay-entries-replaced-whole', floor=2)
     shared.read_layering(ctx, '4')
     shared.file_reads_shadowed(ctx, '4s')
     # the latest value of a key may still live only in an older, queued index table: reader and planner search them all
